@@ -70,8 +70,12 @@ def PLit.toks (p : PLit) : List Tok := (if p.neg then [Tok.sym "-"] else []) ++ 
 
 def locToks (q : Nat) : List Tok := [.id "q", .sym "[", .num (toString q), .sym "]"]
 
+/-- `barrier` and `reset` are printed by the same `Gate.get_qasm` format; their names are
+keywords of the grammar -/
+def nameTok (name : String) : Tok := if keywords.contains name then .kw name else .id name
+
 def opToks (o : POp) : List Tok :=
-  .id o.name ::
+  nameTok o.name ::
     ((if o.params.isEmpty then [] else
         Tok.sym "(" :: intersperseTok (.sym ",") (o.params.map PLit.toks) ++ [Tok.sym ")"])
      ++ intersperseTok (.sym ",") (o.loc.map locToks) ++ [Tok.sym ";"])
